@@ -258,7 +258,11 @@ func (t *Object) Resolve(field *Field, args map[string]interface{}) (result inte
 			result = &list
 		}
 	case interfacesStr:
-		result = t.Interfaces
+		// A list the resolver handles itself. A bare []Type would be handed
+		// to an installed root (any) resolver which knows nothing about it.
+		list := newTypeList()
+		list.add(t.Interfaces...)
+		result = list
 	case possibleTypesStr, enumValuesStr, inputFieldsStr, ofTypeStr:
 		// nil result
 	}
